@@ -139,6 +139,52 @@ def build(tier, work, builder):
     gen.append(f"#define N_ALT {len(a2)}\n#define EMPTY_ALT {[i for i, a in enumerate(a2) if not a][0]}")
     write(work, "array_decl_actions.inc", "\n".join(gen) + "\n")
     aobj = builder.cc(os.path.join(CDIR, "arr15.c"), includes=[work])
+    # ---- rootTransId: the file-static buffer that carries the source of the `, -> target` shorthand of a transition list.
+    #      The actions of Transition / TransitionOpt (and the old-syntax twins) are replayed in bison's order.
+    fam = []
+    inside = 0
+    for pre in ("", "Old"):
+        rT, aT = X.yacc_rule(py, pre + "Transition")
+        rO, aO = X.yacc_rule(py, pre + "TransitionOpt")
+        rL, aL = X.yacc_rule(py, pre + "TransitionList")
+        slices += [rL, rT, rO]
+        inside += rT.text.count("rootTransId") + rO.text.count("rootTransId") + rL.text.count("rootTransId")
+        fam.append((pre, aT, aO, aL))
+    total = len(re.findall(r"\brootTransId\b", py.text))
+    if total != inside + 1:
+        raise X.ExtractionBroken(f"parser.y: rootTransId is used outside the transition-list rules ({total - 1} uses, {inside} inside them)")
+
+    def lower_taction(a):
+        a = re.sub(r"CALL\(\s*@\d+\s*,\s*@\d+\s*,\s*(.*?)\)\s*;", r"\1;", a, flags=re.S)
+        a = re.sub(r"\$(\d+)", r"VAL(inst, \1)", a)
+        if "@" in a or "$" in a:
+            raise X.ExtractionBroken("transition action uses values/locations the replayer does not model: " + a[:80])
+        return a
+    PASSIVE = {"NonTypeId", "T_ARROW", "T_UNCONTROL_ARROW", "Select", "Guard", "Sync", "Assign", "Probability", "OldGuard", "error"}
+    gen = ["/* GENERATED from the transition-list rules of src/parser.y: the action blocks are the REAL text (CALL(@a, @b, f(...)) -> f(...),",
+           "   $k -> the identity of the k-th symbol's text), in the order bison executes them.  The label non-terminals (Select, Guard,",
+           "   Sync, Assign, Probability) do not touch rootTransId: it occurs nowhere else in parser.y (checked by the generator). */"]
+    for pre, aT, aO, aL in fam:
+        if [[s for k, s in alt if k == "sym"] for alt in aL] != [[pre + "Transition"], [pre + "TransitionList", "','", pre + "TransitionOpt"]]:
+            raise X.ExtractionBroken(f"rule {pre}TransitionList changed shape")
+        for nm, alts in ((pre + "Transition", aT), (pre + "TransitionOpt", aO)):
+            gen.append(f"static void nt_{nm}(int inst, int alt)\n{{")
+            for k, alt in enumerate(alts):
+                gen.append(f"    if (alt == {k}) {{")
+                for kind, txt in alt:
+                    if kind == "act":
+                        gen.append("        " + lower_taction(txt))
+                    elif kind == "sym" and txt == pre + "Transition" and nm.endswith("Opt"):
+                        gen.append(f"        nt_{pre}Transition(inst, verif_sub[inst]);")
+                    elif kind == "sym" and (txt in PASSIVE or txt.startswith("'")):
+                        pass
+                    else:
+                        raise X.ExtractionBroken(f"rule {nm}: unexpected item {txt[:40]}")
+                gen.append("        return;\n    }")
+            gen.append("}")
+            gen.append(f"#define N_ALT_{nm} {len(alts)}")
+    write(work, "transition_actions.inc", "\n".join(gen) + "\n")
+    tobj = builder.cc(os.path.join(CDIR, "tr15.c"), includes=[work])
     # ---- lexer.l: actions of the rules that switch the flex start condition, and of the two <<EOF>> rules
     lx = X.Source("src/lexer.l")
     cb_s, cb_e = lx.find_unique(r"^<comment>\{", what="lexer.l: <comment> block")
@@ -174,6 +220,9 @@ def build(tier, work, builder):
     J("c15_start_condition_property", "h_c15_start_condition_property", ["static parseProperty prologue", "lexer.l rules \"/*\", \"*/\", <comment><<EOF>>, <<EOF>> (actions)"], bound_note="<= 3 comment openings/closings per scan")
     jobs.append(F.Job("c15_array_counter", "h_c15_array_counter", [aobj], timeout=300, unwind=12,
                       functions=["parser.y rules ArrayDecl / ArrayDecl2 (actions on the global counter `types`)"], bound_note="array declarators of <= 4 dimensions"))
+    for pre in ("", "Old"):
+        jobs.append(F.Job("c15_transition_source" + ("_old" if pre else ""), "h_c15_transition_source" + ("_old" if pre else ""), [tobj], unwind=8,
+                          functions=[f"parser.y rules {pre}TransitionList / {pre}Transition / {pre}TransitionOpt (actions on the file-static rootTransId)"], bound_note="transition lists of <= 3 edges"))
     J("c15_position_wrap", "h_c15_position_wrap", ["PositionTracker::setPath (counter monotonicity across calls)"], note="run with the known-finding class excluded: must pass")
     J("c15_kf1_position_wrap", "h_c15_position_wrap", ["PositionTracker::setPath (counter monotonicity across calls)"], obj2=hobj_kf,
       known={r"position-counter-stays-monotone": "C15-KF1"}, note="unrestricted: fails exactly inside the known-finding class")
@@ -183,7 +232,7 @@ def build(tier, work, builder):
                   "std::string xpath is an identity; MAXLEN shortened (only rootTransId[0] is observed)"],
         "trusted_base": ["CBMC 6.11 C++ front end + SAT", "token ids generated from the %token list (distinct, as bison assigns them)", "stubs in contracts/C15/ps15.cpp"],
         "assumptions": ["the flex start condition is under contract for complete scans (c15_start_condition_*: the rule actions that switch it and the two <<EOF>> rules, extracted from lexer.l); an exception thrown while the scanner is inside a comment would still leave it in the comment condition; flex's buffer stack and bison's own state are not under contract",
-                        "rootTransId is not re-initialised by the prologues; the grammar writes it before the first use in a transition list (not under contract: grammar actions); the counter `types` is covered by c15_array_counter (actions of ArrayDecl/ArrayDecl2 replayed in bison's order; dimensions are assumed not to nest another array declarator)",
+                        "rootTransId is not re-initialised by the prologues; that the grammar writes it before every use in a transition list is under contract since round 10 (c15_transition_source*: the rule actions replayed in bison's order from two arbitrary histories); the counter `types` is covered by c15_array_counter (actions of ArrayDecl/ArrayDecl2 replayed in bison's order; dimensions are assumed not to nest another array declarator)",
                         "the public wrappers are checked textually to be scan_string / static entry / delete_buffer only",
                         "everything after the prologue (the parse itself) is outside this kernel: the whole-history statement is NOT decided"],
         "explanation": "",
